@@ -27,13 +27,22 @@ PermsOf(n) == SetToSeq(Permutations(1..n))
 Twins(b) == LET f == BaseFields(b)  ps == PermsOf(Len(b)) IN
             [j \in 1..Len(ps) |-> [i \in 1..Len(f) |-> f[ps[j][i]]]]
 
+(* embedded structs: every permutation of an inner struct, each embedded (directly and as an array element) in an outer CAN struct *)
+InnerBase == <<U(3), I(12), En("Ec")>>
+InnerTwins == Twins(InnerBase)
+InName(j) == "In" \o ToString(j)
+OuterFields(j) == << Field("fa", 4, U(5), 1), Field("fb", 1, St(InName(j)), 1), Field("fc", 7, Arr(St(InName(j)), 2), 1) >>
+NOuter == Len(InnerTwins)
 CanSeq == SetToSeq(CanBases)
 WireSeq == SetToSeq(WireBases)
 AllBases == CanSeq \o WireSeq
-IsCan(bi) == bi <= Len(CanSeq)
+IsCan(bi) == (bi >= 1 /\ bi <= Len(CanSeq)) \/ bi = Len(CanSeq) + Len(WireSeq) + 1
 TName(bi, j) == "T" \o ToString(bi) \o "p" \o ToString(j)
-StructsOf == Flat([bi \in 1..Len(AllBases) |->
+OuterBase == Len(AllBases) + 1       \* base number of the embedded-struct family
+StructsOf == [j \in 1..NOuter |-> [name |-> InName(j), fields |-> InnerTwins[j], base |-> 0, twin |-> j]]
+             \o Flat([bi \in 1..Len(AllBases) |->
                 [j \in 1..Len(Twins(AllBases[bi])) |-> [name |-> TName(bi, j), fields |-> Twins(AllBases[bi])[j], base |-> bi, twin |-> j]]])
+             \o [j \in 1..NOuter |-> [name |-> TName(OuterBase, j), fields |-> OuterFields(j), base |-> OuterBase, twin |-> j]]
 PermSchema ==
     LET sts == StructsOf IN
     [structs |-> [i \in 1..Len(sts) |-> [name |-> sts[i].name, fields |-> sts[i].fields]],
@@ -45,7 +54,7 @@ PermSchema ==
      meta |-> [i \in 1..Len(sts) |-> [base |-> sts[i].base, twin |-> sts[i].twin]]]
 
 Init == stage = 0 /\ S = PermSchema /\ k = 0 /\ v = <<>>
-Next == \/ stage = 0 /\ stage' = 1 /\ k' \in 1..Len(S.structs) /\ v' = <<>> /\ S' = S
+Next == \/ stage = 0 /\ stage' = 1 /\ k' \in {i \in 1..Len(S.structs) : S.meta[i].base # 0} /\ v' = <<>> /\ S' = S
         \/ stage = 1 /\ stage' = 2 /\ k' = k /\ S' = S /\ v' \in Vals(S, St(S.structs[k].name), 1)
 Spec == Init /\ [][Next]_vars
 
